@@ -1157,3 +1157,31 @@ Proof.
   unfold dnf_variants. rewrite filter_In. intros [_ Hk]. unfold dnf_kept in Hk. apply andb_true_iff in Hk. destruct Hk as [H1 H2].
   split; [exact H1|]. destruct (a_effs v); discriminate.
 Qed.
+
+(* ================================================================== DisjunctiveConditionsRemover: the promised shape *)
+(* no precondition and no effect condition of the compiled actions is a disjunction, provided the DNF walker's
+   disjuncts / literals are not (C12: a DNF's disjuncts are conjunctions of literals) *)
+Definition dcr_shape (P : problem) : bool :=
+  forallb (fun ia => forallb (fun x => negb (is_or x)) (a_pre (snd ia)) &&
+                     forallb (fun e => negb (is_or (e_cond e))) (a_effs (snd ia))) (p_actions P) &&
+  forallb (fun g => negb (is_or g)) (p_goals P).
+
+Theorem dcr_shape_ok cdnf pre_dnf nm P goals' :
+  (forall c d, In d (cdnf c) -> is_or d = false) ->
+  (forall a d x, In d (pre_dnf a) -> In x d -> is_or x = false) ->
+  forallb (fun g => negb (is_or g)) goals' = true ->
+  dcr_shape (dcr_compile cdnf pre_dnf nm P goals') = true.
+Proof.
+  intros Hc Hp Hg. unfold dcr_shape. cbn [dcr_compile p_actions p_goals]. rewrite Hg, andb_true_r.
+  apply forallb_forall. intros iv Hiv. unfold vt_actions in Hiv. apply in_map_iff in Hiv.
+  destruct Hiv as [[[i' i] v] [<- Hin]]. cbn [fst snd]. unfold dcr_table in Hin. apply in_flat_map in Hin.
+  destruct Hin as [[j a] [_ Hin]]. cbn [fst snd] in Hin. apply in_map_iff in Hin. destruct Hin as [kv [E Hkv]].
+  inversion E; subst. apply number_from_snd in Hkv. unfold dnf_variants in Hkv. apply filter_In in Hkv.
+  destruct Hkv as [Hkv _]. apply in_map_iff in Hkv. destruct Hkv as [d [<- Hd]]. cbn [dnf_variant a_pre a_effs].
+  apply andb_true_iff. split.
+  - apply forallb_forall. intros x Hx. rewrite (Hp a d x Hd Hx). reflexivity.
+  - apply forallb_forall. intros e' He. apply in_flat_map in He. destruct He as [e [_ He]]. unfold split_effect in He.
+    destruct (is_uncond e) eqn:Eu.
+    + destruct He as [<-|[]]. unfold is_uncond in Eu. apply is_true_eq in Eu. rewrite Eu. reflexivity.
+    + apply in_map_iff in He. destruct He as [c [<- Hcin]]. cbn [set_cond e_cond]. rewrite (Hc _ _ Hcin). reflexivity.
+Qed.
